@@ -352,3 +352,36 @@ theorem add_opposite_sign (a b : Nat) (h : sgn a ≠ sgn b) :
 theorem sub_eq_add_neg (a b : Nat) : sub a b = add a (neg b) := rfl
 
 end CvssVerif.F64
+
+namespace CvssVerif.F64
+
+/-- binary64 multiplication is commutative, bit for bit -/
+theorem mul_comm' (a b : Nat) : mul a b = mul b a := by
+  rw [mul_eq_rnd, mul_eq_rnd, Nat.add_comm (sgn a) (sgn b), Nat.mul_comm (man a) (man b), Nat.add_comm (eb a) (eb b)]
+
+/-- binary64 addition is commutative, bit for bit (including the sign of an exact zero) -/
+theorem add_comm' (a b : Nat) : add a b = add b a := by
+  unfold add
+  simp only [cbv_eq']
+  have he : (if eb a ≤ eb b then eb a else eb b) = (if eb b ≤ eb a then eb b else eb a) := by
+    split <;> split <;> omega
+  rw [he]
+  generalize (if eb b ≤ eb a then eb b else eb a) = e
+  generalize man a <<< (eb a - e) = ma
+  generalize man b <<< (eb b - e) = mb
+  generalize sgn a = sa
+  generalize sgn b = sb
+  by_cases hs : sa = sb
+  · subst hs; simp [Nat.add_comm]
+  · have hs' : ¬ sb = sa := fun h => hs h.symm
+    simp only [hs, hs', if_false]
+    by_cases hm : ma = mb
+    · subst hm; simp
+    · have hm' : ¬ mb = ma := fun h => hm h.symm
+      simp only [hm, hm', if_false]
+      by_cases hg : ma > mb
+      · have : ¬ mb > ma := by omega
+        simp [hg, this]
+      · have : mb > ma := by omega
+        simp [hg, this]
+end CvssVerif.F64
